@@ -36,6 +36,10 @@ def generate(rng, tier):
     n_gens = rng.choice([0, 1, 1, 2, 3])
     setup, info = scen.gen_history_ops(rng, tree, n_gens=n_gens, p_sf=0.1, p_n=0.1, p_edit=0.2,
                                        edit_kinds=("add", "alter", "touch"), formats_hi=2)
+    if n_gens and rng.random() < 0.12:
+        # the history files were write-protected after sealing (chmod a-w on the files; folders stay writable, so the
+        # next create still works: replacing a file needs write access to the folder only)
+        setup = setup + [{"op": "chmod", "path": "@R", "tree": True, "mode": rng.choice([0o444, 0o440, 0o400]), "fault": "history_files_write_protected"}]
     fmts = gen.pick_formats(rng, 1, 2)
     args = gen.fmt_args(fmts)
     files = gen.tree_files(info["tree_state"])
